@@ -84,7 +84,7 @@ def replay_setpos_witness(clause, lines, kind="replay_file_name"):
             for i, it in enumerate(items):
                 if it.startswith("L") and int(it[1:]) > rpos:
                     v = int(it[1:])
-                    if v % 1000000 != 0 or v // 1000000 not in names or i == 0 or not items[i - 1].startswith("M"):
+                    if v % 1000000 != 0 or v // 1000000 not in names or i == 0 or items[i - 1][0] not in "MOX":    # O / X: a damaged record that was sent
                         return False
                     found = True
         if pos:
@@ -98,7 +98,95 @@ def two_node_witness(clause, lines, kind=""):
     return clause == "two_node_loss" and kind == "setpos_from_peer_replay"
 
 
-CLASSIFIERS = {"c12_equal_timestamps": equal_stamp_witness, "c12_replay_setpos_file_name": replay_setpos_witness}
+def _failing_probe(clause, lines):
+    """the witness of a damaged-file failure: clause replay_complete, nothing but events / rotations / connects and ONE probe
+    with foreign bytes, which is the failing (last) step.  Returns (damage description items, replayed items, logged events)."""
+    if clause != "replay_complete":
+        return None
+    ops = _ops(lines)
+    if not ops or ops[-1][0] != "probe" or sum(1 for o in ops if o[0] == "probe") != 1:
+        return None
+    # besides events and connects only what merely produces files (rotation, stop/crash + start, the counter preset); never a clean-up,
+    # an acknowledgement, permanent damage or an object removal, which could explain a missing event otherwise
+    if any(o[0] not in ("C", "relay", "rotate", "conn", "attach", "disc", "probe", "ls", "dump", "replay", "stop", "start", "crash",
+                        "setcount") for o in ops):
+        return None
+    post = lines[-1].partition(" | ")[2].split()
+    if len(post) < 5 or ops[-1][3] == "-":
+        return None
+    logged = []
+    for l in lines:
+        pre, _, po = l.partition(" | ")
+        w, o = pre.split(), po.split()
+        if w and w[0] == "relay" and o and o[0] != "-":
+            logged.append((int(w[1]), w[2]))
+    garb = [] if post[3] == "-" else post[3].split(",")
+    out = set() if post[1] == "-" else set(post[1].split(","))
+    return garb, out, logged
+
+
+def damaged_timestamp_ahead_witness(clause, lines):
+    """F-C12d: the damaged part of the file holds a well-framed record that still decodes to a dictionary with a NUMERIC timestamp
+    (e.g. one digit of the stamp changed), and that stamp is not below any of the logged events the replay then left out."""
+    fp = _failing_probe(clause, lines)
+    if not fp:
+        return False
+    garb, out, logged = fp
+    stamps = [int("".join(ch for ch in g[1:] if ch.isdigit() or ch == "-")) for g in garb if g.startswith("d")]
+    missing = [ts for (ts, ident) in logged if f"M{ident}@{ts}" not in out]
+    return bool(stamps) and bool(missing) and all(ts <= max(stamps) for ts in missing)
+
+
+def damaged_wrong_type_witness(clause, lines):
+    """F-C12e: the FIRST damaged record is well framed and decodes to a dictionary, but its "timestamp" is no number or its "secobj"
+    no dictionary: the comparison / conversion throws outside ReplayLog's try block, SyncClient swallows the exception."""
+    fp = _failing_probe(clause, lines)
+    if not fp:
+        return False
+    garb, out, logged = fp
+    if not garb:
+        return False
+    g = garb[0]
+    flags = "".join(ch for ch in g[1:] if ch.isalpha())
+    return g[0] == "t" or (g[0] in "de" and "s" in flags)
+
+
+def connect_window_witness(clause, lines):
+    """F-C12f: every event that was queued live in front of the replay went to an endpoint whose connection had been added by
+    Endpoint::AddClient (`attach`) while SyncClient had not started yet — never to one for which SyncClient was under way (`conn`)."""
+    if clause != "no_live_before_sync":
+        return False
+    peers = ["A", "B", "C", "D", "E", "F"]
+    state = {}            # peer -> "attach" | "conn" | "synced"
+    found = False
+    for l in lines:
+        pre, _, post = l.partition(" | ")
+        w, o = pre.split(), post.split()
+        if not w:
+            continue
+        if w[0] in ("attach", "conn") and w[1] not in state:
+            state[w[1]] = w[0]
+        elif w[0] == "disc":
+            state.pop(w[1], None)
+        elif w[0] in ("replay", "probe"):
+            p = w[2] if w[0] == "replay" else w[5]
+            if p in state:
+                state[p] = "synced"
+        elif w[0] in ("stop", "crash", "start"):
+            state.clear()
+        elif w[0] == "relay" and len(o) >= 2:
+            live = int(o[1])
+            for i, p in enumerate(peers):
+                if live >> i & 1 and state.get(p) in ("attach", "conn"):
+                    if state[p] == "conn":
+                        return False
+                    found = True
+    return found
+
+
+CLASSIFIERS = {"c12_equal_timestamps": equal_stamp_witness, "c12_replay_setpos_file_name": replay_setpos_witness,
+               "c12_damaged_timestamp_ahead": damaged_timestamp_ahead_witness, "c12_damaged_wrong_type": damaged_wrong_type_witness,
+               "c12_connect_window": connect_window_witness}
 
 
 # Harmless rewrites of the anchored code on which the whole check was run (mutated object files in scratch, full flow):
@@ -125,7 +213,8 @@ class C12(StdCheck):
                          "receiver_ignores_old", "position_monotone", "cleanup_safe", "truncation_tolerant",
                          "damage_tolerant", "survives_restart", "relay_persists", "rel_init", "step_meets_spec", "model_positions_justified",
                          "model_trace_meets_spec_partial", "timer_confirmation_sound", "confirmation_counterexample",
-                         "premature_confirmation_counterexample"]
+                         "premature_confirmation_counterexample", "other_files_replayed_partial", "other_files_replayed_counterexample",
+                         "live_only_when_in_sync", "model_no_live_before_sync_partial", "no_live_before_sync_counterexample"]
     technique = ("Lean 4 proof about an executable transcription of PersistMessage/RotateLogFile/ReplayLog/the clean-up timer and "
                  "the receiver's filter (fold invariants over the records, the pass structure of ReplayLog, C20's netstring "
                  "prefix theorem for damaged files); correspondence by differential execution of a real in-process ApiListener "
@@ -138,31 +227,40 @@ class C12(StdCheck):
                   "exactly the records wholly inside the cut, and with ANY bytes behind the intact part those records still come first; a "
                   "restart without byte loss changes nothing; and the whole-trace theorem: for every operation sequence (events, "
                   "connects, replays, rotations, clean-ups, acknowledgements, incoming messages, crash-restarts) under a strictly "
-                  "advancing clock the model node's observed trace satisfies the executable specification. The model is tied to "
-                  "the code by running the real ApiListener (RelayMessage, ReplayLog, RotateLogFile, the timer through the pump, "
+                  "advancing clock the model node's observed trace satisfies the executable specification; for ANY content of a damaged file the wanted records of the "
+                  "files behind it are sent as long as the garbage carries no timestamp above theirs; an event is queued live only for connected, "
+                  "non-syncing endpoints, and for every operation sequence in which SyncClient is under way as soon as a connection exists nothing is "
+                  "queued live in front of that connection's replay and every SyncClient run ends with `syncing` clear. The model is tied to "
+                  "the code by running the real ApiListener (RelayMessage, SyncClient -> ReplayLog for EVERY replay, RotateLogFile, the timer through the pump, "
                   "MessageHandler) on seeded operation sequences with restarts as new processes, files compared as decoded record sequences, and "
                   "every cut offset of multi-file logs; the specification predicate is evaluated on the implementation's trace")
     level_note = ("Trusted: Lean kernel (+ propext, Classical.choice, Quot.sound), harness/driver, C20's netstring model. The JSON text of a "
                   "record is an oracle input (the bytes PersistMessage wrote are handed to the model, which checks the framing and "
                   "decodes by table); whether the peer's zone may see an object is read from the implementation (CanAccessObject is C13) "
                   "and cross-checked against the topology in the spec. The exactness theorem needs strictly increasing timestamps: "
-                  "with equal stamps the code loses events (F-C12a, known finding, kernel-checked counterexample). The whole-trace theorem covers every clause except confirmation_not_beyond_received, which the code violates inside ReplayLog (F-C12c, known finding: kernel-checked counterexamples for the clause and for the loss between two nodes; the timer's confirmations are proved sound); the check also runs the two-node schedule on two real node processes, shuttling the queued messages itself. A crash of the real code in any operation is reported by the harness as an observation (`<op> | DIED <signal>`) and fails the clause no_crash with the operation sequence as replay.")
+                  "with equal stamps the code loses events (F-C12a, known finding, kernel-checked counterexample). The whole-trace theorem covers every clause except confirmation_not_beyond_received, which the code violates inside ReplayLog (F-C12c, known finding: kernel-checked counterexamples for the clause and for the loss between two nodes; the timer's confirmations are proved sound); the check also runs the two-node schedule on two real node processes, shuttling the queued messages itself. Three further known findings on the unchanged tree, each with a kernel-checked counterexample or a statement of what the model omits: F-C12d (a still well-framed record with a too large timestamp in one file suppresses intact records of other files; `other_files_replayed_counterexample`), F-C12e (a record whose timestamp is no number / whose secobj is no dictionary throws outside ReplayLog's try block, SyncClient swallows it, later files are never replayed; the model's decoder has no such third outcome, the finding is carried by the implementation trace alone), F-C12f (an event relayed between Endpoint::AddClient and the start of the queued SyncClient is sent live in front of the replay; `no_live_before_sync_counterexample`). Security objects of two TYPES share their names (Zone and ApiUser called master/sat/agent/zx/g, living in different zones), so that visibility decided by name alone is a spec failure (replay_complete / replay_visible). A crash of the real code in any operation is reported by the harness as an observation (`<op> | DIED <signal>`) and fails the clause no_crash with the operation sequence as replay.")
     trusted_base = [
         "modelled, not verified: JSON encoding of a record (oracle bytes + table decode), Zone::CanAccessObject (oracle bits), "
         "Boost.Asio strands delivering posted sends in order, the file system (rename/unlink/append as the model says)",
         "not modelled: events relayed while the endpoint is connected but still syncing (Q-C12b, outside the statement), origin-based "
         "skipping in RelayMessageOne (events are locally generated; the position advance of skipped endpoints IS modelled, incl. two-endpoint "
         "child and parent zones whose std::set iteration order is an oracle input), "
-        "concurrent PersistMessage during an unlocked replay pass",
+        "concurrent PersistMessage during an unlocked replay pass, events relayed WHILE SyncClient runs (the harness relays between operations only; "
+        "the window between AddClient and SyncClient is driven by the `attach` operation), SyncClient's certificate request and config sync "
+        "(their messages are dropped from the observed queue), exceptions escaping ReplayLog (F-C12e: observed on the implementation only)",
     ]
     assumptions = ["timestamps are non-negative µs integers, exact in binary64", "one endpoint per non-local zone",
                    "the virtual clock advances by >= 1 µs per relayed event except in the named equal-stamp case"]
-    rule = ("12 named sibling schedules (both endpoints of the two-endpoint child / parent zone away, events persisted, one returns and carries further "
+    rule = ("4 named cases with events about same-named objects of two types in both orders replayed to all six peers; 3 named connect-window cases "
+            "(attach, event, SyncClient); 2 three-file logs with each of 22 kinds of well-framed damaged record (not JSON, JSON but no dictionary, no / non-numeric / "
+            "too large / old timestamp, secobj or message of a wrong type) behind EVERY frame boundary of every file; 1 three-file log with every 3rd (thorough: every) "
+            "byte replaced in place by '9', '0' and '\"'; every replay goes through the real SyncClient; "
+            "12 named sibling schedules (both endpoints of the two-endpoint child / parent zone away, events persisted, one returns and carries further "
             "events, then the other returns; with/without rotation, master question, second disconnect); 4 (thorough 7) cases with records of 1 MiB-1, "
             "1 MiB, 1 MiB+1, 2 MiB (thorough also 5 MiB, 3 MB) followed by later events in the same and the next file; two real nodes (X replays first, Y handles X's queue before / after its own ReplayLog); 1 named equal-timestamp case; 1 named regression case with a `null` record in the first of two files (F-C12b, fixed); 3 named receiver cases (messages with ts equal to the recorded position and 1 µs around it, also across crash and stop restarts); 2 (thorough 5) three-file logs cut at EVERY byte offset of every file followed by ReplayLog; "
             "1200 (thorough 6000) seeded random cases of 8..38 (..58) operations over relay (6 kinds of security object) / connect / "
             "disconnect / ReplayLog / rotate / timer / acknowledge / receive (two thirds of them at the recorded remote position -1/0/+1 µs) / stop / crash (with byte loss) / start / object removal / "
-            "counter preset 49998..50000 / permanent and temporary damage with random bytes, 6 peers (A in the local zone, B and D in a two-endpoint child zone, C in a grandchild zone, E and F in a two-endpoint parent zone) with log_duration from "
+            "counter preset 49998..50000 / permanent and temporary damage with random bytes or a well-framed damaged record at a frame boundary / attach without SyncClient, 11 security objects (none, 5 zones, 5 same-named objects of another type), 6 peers (A in the local zone, B and D in a two-endpoint child zone, C in a grandchild zone, E and F in a two-endpoint parent zone) with log_duration from "
             "{-1,0,5,60,3600,86400}, local node master or not. evaluations = "
             "operations compared; a case is non-trivial when a replay delivered at least one event (counted by the Lean driver)")
 
@@ -216,12 +314,16 @@ class C12(StdCheck):
         groups = {}
         for l in fails:
             kv = core.parse_kv(l)
-            key = (("spec", kv.get("clause", "?") + (" kind=" + kv["kind"] if "kind" in kv else "")) if l.startswith("SPECFAIL")
+            key = (("spec", kv.get("clause", "?") + (" kind=" + kv["kind"] if "kind" in kv else "") +
+                    (" dmg=" + kv["dmg"] if "dmg" in kv else "")) if l.startswith("SPECFAIL")
                    else ("corr", kv.get("op", "observation")))
             try:
                 case = case_upto(int(kv["line"]))
             except (KeyError, ValueError):
                 continue
+            if "dmg" in kv and case:
+                # a probe restores the file: the other probes (and read-only listings) of the case are no part of the witness
+                case = [c for c in case[:-1] if not c.startswith(("probe ", "dump ", "ls ", "cutall ", "flipall "))] + case[-1:]
             if case:
                 groups.setdefault(key, []).append((len(case), case, l))
         res.extra["failing_cases_by_kind"] = {f"{k[0]}:{k[1]}": len(v) for k, v in groups.items()}
@@ -229,12 +331,29 @@ class C12(StdCheck):
         # spec clauses first (they carry the concrete failing input), then disagreements
         for key in sorted(groups, key=lambda k: (k[0] != "spec", k[1])):
             recorded_shape = key == ("spec", "confirmation_not_beyond_received kind=replay_file_name")
-            cands = sorted(groups[key], key=lambda c: c[0])[:1 if recorded_shape else self.max_shrunk]
+            cands = sorted(groups[key], key=lambda c: c[0])[:self.max_shrunk]
+            if key[0] == "spec" and cands:
+                # one witness is enough where the shortest one has a recorded shape (known finding)
+                cl0 = key[1].split(" ")[0]
+                try:
+                    if recorded_shape or any(fn(cl0, [x for x in cands[0][1] if x.strip()]) for fn in
+                                             (damaged_timestamp_ahead_witness, damaged_wrong_type_witness, connect_window_witness)):
+                        cands = cands[:1]
+                except (ValueError, IndexError, KeyError):
+                    pass
             for _, case, l in cands:
                 if key[0] == "spec":
-                    clause, _, kind = key[1].partition(" kind=")
-                    shown = self.shrink(harness, driver, case, "SPECFAIL", "clause=" + key[1])
-                    what = f"spec:{self.prop}:{clause}" + (":" + kind if kind and not recorded_shape else "")
+                    clause, _, kind = key[1].partition(" dmg=")[0].partition(" kind=")
+                    dmg = key[1].partition(" dmg=")[2]
+                    try:
+                        as_is = any(fn(clause, [x for x in case if x.strip()]) for fn in
+                                    (damaged_timestamp_ahead_witness, damaged_wrong_type_witness, connect_window_witness))
+                    except (ValueError, IndexError, KeyError):
+                        as_is = False
+                    # a case that already has a recorded shape is its own witness (it was observed in this very run)
+                    shown = case if as_is else self.shrink(harness, driver, case, "SPECFAIL", "clause=" + key[1])
+                    what = f"spec:{self.prop}:{clause}" + (":" + kind if kind and not recorded_shape else "") + \
+                        (":damage_" + ("none" if dmg == "-" else dmg) if dmg else "")
                     res.spec_failures.append(runner.Finding("spec", what, shown, {"driver": l}, {"kind": kind}))
                 else:
                     if n_corr >= self.max_shrunk:
@@ -258,7 +377,8 @@ class C12(StdCheck):
         kind = f.classifier_data.get("kind", "")
         try:
             return bool(equal_stamp_witness(clause, lines) or replay_setpos_witness(clause, lines, kind or "replay_file_name")
-                        or two_node_witness(clause, lines, kind))
+                        or two_node_witness(clause, lines, kind) or damaged_timestamp_ahead_witness(clause, lines)
+                        or damaged_wrong_type_witness(clause, lines) or connect_window_witness(clause, lines))
         except (ValueError, IndexError, KeyError):
             return False
 
@@ -329,7 +449,7 @@ class C12(StdCheck):
         kind = finding.classifier_data.get("kind", "")
         lines = [l for l in finding.case_lines if l.strip()]
         try:
-            if fn is equal_stamp_witness:
+            if fn in (equal_stamp_witness, damaged_timestamp_ahead_witness, damaged_wrong_type_witness, connect_window_witness):
                 return bool(fn(clause, lines))
             # F-C12c: the in-replay confirmation itself, or its consequence between two nodes
             return bool(replay_setpos_witness(clause, lines, kind or "replay_file_name") or two_node_witness(clause, lines, kind))
